@@ -84,13 +84,16 @@ Definition crash_state (st : store) (c : commit) (j : nat) (mw : meta_write) : s
   | MetaFull => write_meta st1 {| m_txid := c_txid c; m_snap := c_new c; m_ok := true |}
   end.
 
-(* the state before the commit: old snapshot intact and active under txid-1 *)
+(* the state before the commit: the old snapshot is intact; the meta slot the
+   commit will NOT overwrite holds the valid meta of the old snapshot with
+   txid-1, and the slot it will overwrite is older or invalid (bolt alternates) *)
+Definition slot (st : store) (b : bool) : meta := if b then meta1 st else meta0 st.
 Definition pre_ok (st : store) (c : commit) : bool :=
+  let a := slot st (negb (slot_of (c_txid c))) in
+  let o := slot st (slot_of (c_txid c)) in
   intact st (c_old_reach c) &&
-  match active st with
-  | Some m => (m_snap m =? c_old c) && (m_txid m =? c_txid c - 1)
-  | None => false
-  end.
+  m_ok a && (m_snap a =? c_old c) && (m_txid a =? c_txid c - 1) &&
+  (negb (m_ok o) || (m_txid o <? c_txid c - 1)).
 
 (* ------------------------------------------------------------------ B. life cycle *)
 
@@ -157,59 +160,60 @@ Definition cap : nat := 100.
 (* `fixed` = the producer registers wg.Done/close before the length check (tree
    after fix 888b9203a); with fixed = false an empty chain makes it return
    without closing the channel (the unfixed code) *)
-Inductive wstep (fixed : bool) : wstate -> wstate -> Prop :=
+(* `failing` = block reads / signature checks may fail (errors sent to errC) *)
+Inductive wstep (fixed failing : bool) : wstate -> wstate -> Prop :=
 | S_prod_check_empty : forall s, w_prod s = PInit -> w_remaining s = O ->
-    wstep fixed s {| w_remaining := O; w_prod := PDone; w_closed := fixed; w_queue := w_queue s;
+    wstep fixed failing s {| w_remaining := O; w_prod := PDone; w_closed := fixed; w_queue := w_queue s;
                      w_workers := w_workers s; w_vdone := w_vdone s; w_err := w_err s;
                      w_interrupt := w_interrupt s; w_main := w_main s;
                      w_prod_joined := fixed; w_result := w_result s |}
 | S_prod_check : forall s n, w_prod s = PInit -> w_remaining s = S n ->
-    wstep fixed s {| w_remaining := S n; w_prod := PLoop; w_closed := w_closed s; w_queue := w_queue s;
+    wstep fixed failing s {| w_remaining := S n; w_prod := PLoop; w_closed := w_closed s; w_queue := w_queue s;
                      w_workers := w_workers s; w_vdone := w_vdone s; w_err := w_err s;
                      w_interrupt := w_interrupt s; w_main := w_main s;
                      w_prod_joined := w_prod_joined s; w_result := w_result s |}
 | S_prod_send : forall s n, w_prod s = PLoop -> w_remaining s = S n -> (w_queue s < cap)%nat ->
-    wstep fixed s {| w_remaining := n; w_prod := PLoop; w_closed := w_closed s; w_queue := S (w_queue s);
+    wstep fixed failing s {| w_remaining := n; w_prod := PLoop; w_closed := w_closed s; w_queue := S (w_queue s);
                      w_workers := w_workers s; w_vdone := w_vdone s; w_err := w_err s;
                      w_interrupt := w_interrupt s; w_main := w_main s;
                      w_prod_joined := w_prod_joined s; w_result := w_result s |}
-| S_prod_fail : forall s, w_prod s = PLoop ->          (* missing signature / read error: report and stop *)
-    wstep fixed s {| w_remaining := w_remaining s; w_prod := PDone; w_closed := true; w_queue := w_queue s;
+| S_prod_fail : forall s, failing = true -> w_prod s = PLoop ->   (* missing signature / read error: report and stop *)
+    wstep fixed failing s {| w_remaining := w_remaining s; w_prod := PDone; w_closed := true; w_queue := w_queue s;
                      w_workers := w_workers s; w_vdone := w_vdone s; w_err := true;
                      w_interrupt := w_interrupt s; w_main := w_main s;
                      w_prod_joined := true; w_result := w_result s |}
 | S_prod_interrupted : forall s, w_prod s = PLoop -> w_interrupt s = true ->
-    wstep fixed s {| w_remaining := w_remaining s; w_prod := PDone; w_closed := true; w_queue := w_queue s;
+    wstep fixed failing s {| w_remaining := w_remaining s; w_prod := PDone; w_closed := true; w_queue := w_queue s;
                      w_workers := w_workers s; w_vdone := w_vdone s; w_err := w_err s;
                      w_interrupt := true; w_main := w_main s;
                      w_prod_joined := true; w_result := w_result s |}
 | S_prod_finish : forall s, w_prod s = PLoop -> w_remaining s = O ->
-    wstep fixed s {| w_remaining := O; w_prod := PDone; w_closed := true; w_queue := w_queue s;
+    wstep fixed failing s {| w_remaining := O; w_prod := PDone; w_closed := true; w_queue := w_queue s;
                      w_workers := w_workers s; w_vdone := w_vdone s; w_err := w_err s;
                      w_interrupt := w_interrupt s; w_main := w_main s;
                      w_prod_joined := true; w_result := w_result s |}
-| S_worker_recv : forall s q (bad : bool), w_queue s = S q -> (0 < w_workers s)%nat ->
-    wstep fixed s {| w_remaining := w_remaining s; w_prod := w_prod s; w_closed := w_closed s; w_queue := q;
+| S_worker_recv : forall s q (bad : bool), (bad = true -> failing = true) -> w_queue s = S q -> (0 < w_workers s)%nat ->
+    wstep fixed failing s {| w_remaining := w_remaining s; w_prod := w_prod s; w_closed := w_closed s; w_queue := q;
                      w_workers := w_workers s; w_vdone := w_vdone s; w_err := w_err s || bad;
                      w_interrupt := w_interrupt s; w_main := w_main s;
                      w_prod_joined := w_prod_joined s; w_result := w_result s |}
 | S_worker_exit : forall s k, w_queue s = O -> w_closed s = true -> w_workers s = S k ->
-    wstep fixed s {| w_remaining := w_remaining s; w_prod := w_prod s; w_closed := true; w_queue := O;
+    wstep fixed failing s {| w_remaining := w_remaining s; w_prod := w_prod s; w_closed := true; w_queue := O;
                      w_workers := k; w_vdone := w_vdone s; w_err := w_err s;
                      w_interrupt := w_interrupt s; w_main := w_main s;
                      w_prod_joined := w_prod_joined s; w_result := w_result s |}
 | S_waiter : forall s, w_workers s = O -> w_vdone s = false ->
-    wstep fixed s {| w_remaining := w_remaining s; w_prod := w_prod s; w_closed := w_closed s; w_queue := w_queue s;
+    wstep fixed failing s {| w_remaining := w_remaining s; w_prod := w_prod s; w_closed := w_closed s; w_queue := w_queue s;
                      w_workers := O; w_vdone := true; w_err := w_err s;
                      w_interrupt := w_interrupt s; w_main := w_main s;
                      w_prod_joined := w_prod_joined s; w_result := w_result s |}
 | S_main_select : forall s, w_main s = MWait -> (w_err s = true \/ w_vdone s = true) ->
-    wstep fixed s {| w_remaining := w_remaining s; w_prod := w_prod s; w_closed := w_closed s; w_queue := w_queue s;
+    wstep fixed failing s {| w_remaining := w_remaining s; w_prod := w_prod s; w_closed := w_closed s; w_queue := w_queue s;
                      w_workers := w_workers s; w_vdone := w_vdone s; w_err := w_err s;
                      w_interrupt := true; w_main := MJoin;
                      w_prod_joined := w_prod_joined s; w_result := w_result s |}
 | S_main_return : forall s, w_main s = MJoin -> w_vdone s = true -> w_prod_joined s = true ->
-    wstep fixed s {| w_remaining := w_remaining s; w_prod := w_prod s; w_closed := w_closed s; w_queue := w_queue s;
+    wstep fixed failing s {| w_remaining := w_remaining s; w_prod := w_prod s; w_closed := w_closed s; w_queue := w_queue s;
                      w_workers := w_workers s; w_vdone := true; w_err := w_err s;
                      w_interrupt := w_interrupt s; w_main := MRet;
                      w_prod_joined := true; w_result := Some (negb (w_err s)) |}.
@@ -219,9 +223,9 @@ Definition winit (blocks workers : nat) : wstate :=
      w_vdone := false; w_err := false; w_interrupt := false; w_main := MWait;
      w_prod_joined := false; w_result := None |}.
 
-Inductive wreach (fixed : bool) (s0 : wstate) : wstate -> Prop :=
-| R_refl : wreach fixed s0 s0
-| R_step : forall s s', wreach fixed s0 s -> wstep fixed s s' -> wreach fixed s0 s'.
+Inductive wreach (fixed failing : bool) (s0 : wstate) : wstate -> Prop :=
+| R_refl : wreach fixed failing s0 s0
+| R_step : forall s s', wreach fixed failing s0 s -> wstep fixed failing s s' -> wreach fixed failing s0 s'.
 
 (* termination measure: every step strictly decreases it *)
 Definition b2n (b : bool) : nat := if b then 1%nat else 0%nat.
